@@ -75,6 +75,7 @@ type Path struct {
 	assertsTrivial int
 	inconcl    []string
 	lastNow    *Term
+	nowMax     *Term
 	nowCount   int
 	ufApps     map[string][]ufApp // for injectivity constraints
 	envFires   map[*ChanV]int
